@@ -124,30 +124,59 @@ class Conforms:
 PARSE_COND = "parser::Parser::parse_cond"
 
 
-def _choice(n, env):
-    """evaluate an expression that selects an enum variant depending on boolean locals in env"""
-    n = peel(n, methods=False)
-    k = n["k"]
-    if k == "Path" and str(n.get("rk", "")).startswith("Ctor"):
-        return short(n["res"], 1)
-    if k == "Match":
-        scr = peel(n["scrut"])
-        if scr["k"] == "Path" and scr.get("rk") == "Local" and scr["name"] in env:
-            v = env[scr["name"]]
-            for a in match_arms(n):
-                for key in a["keys"]:
-                    if key == "_" or key == ("lit", v):
-                        return _choice(a["body"], env)
-    if k == "If" and "e" in n:
-        c = peel(n["c"])
-        neg = False
-        if c["k"] == "Un" and c["op"] == "!":
-            neg = True
-            c = peel(c["e"])
-        if c["k"] == "Path" and c.get("rk") == "Local" and c["name"] in env:
-            v = env[c["name"]] != neg
-            return _choice(n["t"] if v else n["e"], env)
-    raise NotComparison("cannot evaluate variant choice: %s" % render(n))
+class _LazyEnv(dict):
+    """interpreter environment: boolean locals named in `flags` take the given value, other single-assignment locals are
+    evaluated from their definition on demand"""
+
+    def __init__(self, it, locs, flag_value):
+        dict.__init__(self)
+        self.it, self.locs, self.flag_value = it, locs, flag_value
+        self.flag_names = set()
+
+    def child(self):
+        c = _LazyEnv(self.it, self.locs, self.flag_value)
+        c.flag_names = self.flag_names
+        dict.update(c, dict.items(self))
+        return c
+
+    def __contains__(self, key):
+        if dict.__contains__(self, key):
+            return True
+        try:
+            self[key]
+            return True
+        except KeyError:
+            return False
+
+    def __missing__(self, key):
+        d = self.locs.defs.get(key)
+        if d is not None:
+            import interp
+            try:
+                v = self.it.ev(d, self)
+            except interp.Undecided:
+                raise KeyError(key)
+            dict.__setitem__(self, key, v)
+            return v
+        if self.locs.types.get(key) in ("bool", "&bool"):
+            self.flag_names.add(key.split(":")[1])
+            dict.__setitem__(self, key, self.flag_value)
+            return self.flag_value
+        raise KeyError(key)
+
+
+def _choice(n, locs, flag_value):
+    """evaluate (finite interpreter) an expression that selects an enum variant depending on one boolean flag local"""
+    import interp
+    it = interp.Interp()
+    env = _LazyEnv(it, locs, flag_value)
+    try:
+        v = it.ev(n, env)
+    except interp.Undecided as e:
+        raise NotComparison("cannot evaluate variant choice: %s (%s)" % (render(n), e))
+    if not isinstance(v, interp.V):
+        raise NotComparison("variant choice is not an enum value: %s" % render(n))
+    return v.name.split("::")[-1], env.flag_names
 
 
 def between_triples(ctx):
@@ -180,16 +209,16 @@ def between_triples(ctx):
 
     subj = [root_res(c["args"][0], locs) for c in ops]
     ops_sorted = sorted(ops, key=bound_order)
-    not_name = None
-    for x in walk(body):
-        if x["k"] == "Match" and peel(x["scrut"])["k"] == "Path" and peel(x["scrut"]).get("rk") == "Local":
-            if x["scrut"].get("ty") == "bool" or peel(x["scrut"]).get("ty") == "bool":
-                not_name = peel(x["scrut"])["name"]
     out = {}
+    flags = set()
     for nv in (False, True):
-        env = {not_name: nv} if not_name else {}
-        out[nv] = (_choice(ops_sorted[0]["args"][1], env), _choice(lops[0]["args"][1], env),
-                   _choice(ops_sorted[1]["args"][1], env))
+        trip = []
+        for e in (ops_sorted[0]["args"][1], lops[0]["args"][1], ops_sorted[1]["args"][1]):
+            v, fl = _choice(e, locs, nv)
+            flags |= fl
+            trip.append(v)
+        out[nv] = tuple(trip)
+    not_name = sorted(flags)[0] if flags else None
     return out, arm, subj, not_name
 
 
